@@ -531,8 +531,12 @@ def main():
     wroot = f'{BUILD}/work{ALT}/{pid}'
     shutil.rmtree(wroot, ignore_errors=True)
 
+    cap_s = int(os.environ.get('VERIF_CAP_S', '0') or 0)  # development aid: cap every harness (then reported as capped)
+
     def one(h):
         to = int(h['opts'].get('timeout', default_to))
+        if cap_s:
+            to = min(to, cap_s)
         mem = float(h['opts'].get('mem', default_mem))
         wdir = f'{wroot}/{h["name"]}'
         eng = h['opts'].get('engine', 'K')
@@ -569,7 +573,7 @@ def main():
             discharged += 1
         elif v == 'failed':
             violations.append(r)
-        elif h['kind'] == 'attempt' and v in ('timeout', 'oom'):
+        elif (h['kind'] == 'attempt' or cap_s or (tier == 'thorough' and h['tier'] == 'thorough')) and v in ('timeout', 'oom'):
             capped.append(r)
             obligations -= 1
         else:
